@@ -24,8 +24,9 @@ from ..common import Check
 LEVEL = "model_checking"
 
 
-def _cfg(path: str, maxbytes: int, b: int, maxcalls: int, maxcancels: int, into: bool, fixed: bool) -> dict[str, str]:
+def _cfg(path: str, maxbytes: int, b: int, maxcalls: int, maxcancels: int, into: bool, fixed: bool, double: bool = False) -> dict[str, str]:
     consts = {
+        "Double": "TRUE" if double else "FALSE",
         "MaxBytes": str(maxbytes),
         "B": str(b),
         "MaxCalls": str(maxcalls),
@@ -80,7 +81,7 @@ class Impl:
     def cancel_soon(self) -> None:
         self.loop.call_soon(self.task.cancel)
 
-    def iteration(self, seen: bool, timer: bool) -> None:
+    def iteration(self, seen: bool, timer: bool, dbl: bool = False) -> None:
         if seen:
             self.loop.open_gate(self.fd)
         else:
@@ -156,10 +157,137 @@ class Impl:
         except BaseException:  # noqa: BLE001
             pass
         finally:
+            self.task._log_destroy_pending = False  # type: ignore[attr-defined]
             asyncio.set_event_loop(None)
             self.loop.close()
             self.sock.close()
             self.peer.close()
+
+
+class DirectImpl(Impl):
+    """The same protocol object, fed through the asyncio.BufferedProtocol callbacks by the harness (no socket): lets a transport deliver
+    two data callbacks within one iteration, which proactor / fed-buffer transports do and the selector transport never does."""
+
+    def __init__(self, b: int, maxcalls: int, into: bool) -> None:
+        from easynetwork.lowlevel.api_async.backend._asyncio.stream.socket import StreamReaderBufferedProtocol
+
+        self.loop = vloop.VLoop()
+        self.b, self.maxcalls, self.into = b, maxcalls, into
+        self.delivered = []
+        self.outcomes = []
+        self.sent = []
+        self.kbuf = bytearray()
+        asyncio.set_event_loop(self.loop)
+        asyncio.events._set_running_loop(self.loop)
+
+        class StubTransport(asyncio.Transport):
+            def is_closing(self) -> bool:
+                return False
+
+            def pause_reading(self) -> None:
+                pass
+
+            def resume_reading(self) -> None:
+                pass
+
+            def get_extra_info(self, name: str, default: Any = None) -> Any:
+                return default
+
+        self.proto = StreamReaderBufferedProtocol(loop=self.loop)
+        self.proto.connection_made(StubTransport())
+        proto = self.proto
+
+        class Adapter:
+            async def recv(self, n: int) -> bytes:
+                return await proto.receive_data(n)
+
+            async def recv_into(self, buf: Any) -> int:
+                return await proto.receive_data_into(buf)
+
+        self.adapter = Adapter()
+        self.sock = self.peer = None
+        self.fd = -1
+        self.task = self.loop.create_task(self._reader(maxcalls))
+
+    def peer_write(self, n: int) -> None:
+        new = [len(self.sent) + i for i in range(1, n + 1)]
+        self.kbuf += bytes(new)
+        self.sent.extend(new)
+
+    def _read_ready(self) -> None:
+        if not self.kbuf:
+            return
+        with memoryview(self.proto.get_buffer(-1)) as buf:
+            n = min(len(buf), len(self.kbuf))
+            buf[:n] = self.kbuf[:n]
+        del self.kbuf[:n]
+        self.proto.buffer_updated(n)
+
+    def iteration(self, seen: bool, timer: bool, dbl: bool = False) -> None:
+        if seen and self.kbuf:
+            self.loop.call_soon(self._read_ready)
+            if dbl:
+                self.loop.call_soon(self._read_ready)
+        if timer:
+            self.loop.call_soon(self.task.cancel)
+        if not self.loop._ready:  # type: ignore[attr-defined]
+            raise AssertionError("the real loop has nothing to run although the specification has a ready handle")
+        self.loop._run_once()  # type: ignore[attr-defined]
+
+    def kernel(self) -> int:
+        return len(self.kbuf)
+
+    def drain_rest(self) -> list[int]:
+        rest: list[int] = []
+        for _ in range(100):
+            if self.task.done():
+                break
+            if self.kbuf:
+                self.loop.call_soon(self._read_ready)
+            if not self.loop._ready:  # type: ignore[attr-defined]
+                break
+            self.loop._run_once()  # type: ignore[attr-defined]
+        if not self.task.done():
+            self.task.cancel()
+            for _ in range(5):
+                self.loop.call_soon(lambda: None)
+                self.loop._run_once()  # type: ignore[attr-defined]
+        asyncio.events._set_running_loop(None)
+
+        async def more() -> None:
+            while len(self.delivered) + len(rest) < len(self.sent):
+                self._read_ready()
+                data = await asyncio.wait_for(self.adapter.recv(1024), 5)
+                if not data:
+                    break
+                rest.extend(data)
+
+        try:
+            self.loop.run_until_complete(more())
+        except (asyncio.TimeoutError, vloop.VirtualDeadlock, OSError, RuntimeError):
+            pass
+        return rest
+
+    def close(self) -> None:
+        asyncio.events._set_running_loop(None)
+        try:
+            if not self.task.done():
+                self.task.cancel()
+            for _ in range(10):
+                if self.task.done():
+                    break
+                self.loop.call_soon(lambda: None)
+                asyncio.events._set_running_loop(self.loop)
+                try:
+                    self.loop._run_once()  # type: ignore[attr-defined]
+                finally:
+                    asyncio.events._set_running_loop(None)
+        except BaseException:  # noqa: BLE001
+            pass
+        finally:
+            self.task._log_destroy_pending = False  # type: ignore[attr-defined]
+            asyncio.set_event_loop(None)
+            self.loop.close()
 
 
 def _spec_projection(st: dict[str, Any]) -> dict[str, Any]:
@@ -172,10 +300,10 @@ def _spec_projection(st: dict[str, Any]) -> dict[str, Any]:
     }
 
 
-def _replay(chk: Check, g: graph.Graph, paths: list[tuple[int, graph.Path]], b: int, maxcalls: int, into: bool, label: str) -> int:
+def _replay(chk: Check, g: graph.Graph, paths: list[tuple[int, graph.Path]], b: int, maxcalls: int, into: bool, label: str, direct: bool = False) -> int:
     n_iter = 0
     for _root, path in paths:
-        impl = Impl(b, maxcalls, into)
+        impl = (DirectImpl if direct else Impl)(b, maxcalls, into)
         done: list[str] = []
         verdict: tuple[str, list[str]] | None = None
         try:
@@ -202,7 +330,7 @@ def _replay(chk: Check, g: graph.Graph, paths: list[tuple[int, graph.Path]], b: 
                         j += 1
                     complete = g.states[last]["ntodo"] == 0
                     try:
-                        impl.iteration(bool(args[0]), bool(args[1]))
+                        impl.iteration(bool(args[0]), bool(args[1]), bool(args[2]) if len(args) > 2 else False)
                     except (AssertionError, vloop.VirtualDeadlock) as exc:
                         verdict = (f"iteration failed: {exc}", ["loop"])
                         break
@@ -273,6 +401,19 @@ def run_protocol(chk: Check) -> None:
 
                 paths = random.Random(chk.seed).sample(paths, 2500)
             n = _replay(chk, g, paths, 2, 3 if quick else 4, into, f"protocol.{'receive_data_into' if into else 'receive_data'}")
+            if into:
+                # two data callbacks within one iteration (hand-fed protocol)
+                cfg3 = os.path.join(d, "g_double.cfg")
+                consts3 = _cfg(cfg3, 4 if quick else 5, 2, 3, 1 if quick else 2, True, True, double=True)
+                g3, res3 = graph.dump_graph("RecvCancel", cfg3)
+                chk.add_model("RecvCancel[recv_into,double callbacks]", res3, consts3, "NoLoss, Conservation, InOrder")
+                paths3 = graph.edge_cover_paths(g3, seed=chk.seed, max_len=80)
+                if quick and len(paths3) > 2500:
+                    import random
+
+                    paths3 = random.Random(chk.seed).sample(paths3, 2500)
+                n3 = _replay(chk, g3, paths3, 2, 3, True, "protocol.receive_data_into (hand-fed, double callbacks)", direct=True)
+                chk.extra["replay_double_callbacks"] = {"graph_states": len(g3.states), "graph_edges": g3.nedges, "behaviours": len(paths3), "iterations_compared": n3, "constants": consts3}
             chk.extra[f"replay_{'into' if into else 'copy'}"] = {
                 "graph_states": len(g.states),
                 "graph_edges": g.nedges,
